@@ -193,4 +193,17 @@ example :
      | .ok (some v) => encodeNumber (numVal v) 16 true ⟨1, -2, true⟩ (Lit.ofInt 0) == .ok 1234
      | _ => false) = true := by decide +kernel
 
+/-- 127513 is outside `EncWF` only through its Peukert Exponent (decimal resolution with an Offset, see `C01_db_peukert` for its parameters):
+that field's decode → encode trip is settled by the kernel over its whole raw domain — every raw value 0..250 decodes to a value that
+encodes back to the same raw value -/
+theorem C02_peukert_rt :
+    (List.range 251).all (fun z =>
+      match decodeNumber (z * 2 ^ 48) 48 8 false ⟨2, -3, true⟩ ⟨1, 0, false⟩ ⟨15, -1, true⟩ ⟨1, 0, false⟩ with
+      | .ok (some v) =>
+        (match encodeNumber (numVal v) 8 false ⟨2, -3, true⟩ ⟨1, 0, false⟩ with
+         | .ok n => decide (n = (z : Int))
+         | _ => false)
+      | _ => false) = true := by
+  decide +kernel
+
 end N2k
